@@ -55,6 +55,8 @@ Definition gt32 (x y : f32) : bool :=
   match b32_compare x y with Some Gt => true | _ => false end.
 Definition lt32 (x y : f32) : bool :=
   match b32_compare x y with Some Lt => true | _ => false end.
+Definition ge32 (x y : f32) : bool :=
+  match b32_compare x y with Some Gt | Some Eq => true | _ => false end.
 Definition eq32 (x y : f32) : bool :=
   match b32_compare x y with Some Eq => true | _ => false end.
 
